@@ -512,10 +512,6 @@ def GoodPiece (x : Piece) : Prop :=
   (x.2.getText = none ∧ (∃ r, x.1 = 60 :: r) ∧
     ∀ fuel rest, tokenize (fuel + 1) (x.1 ++ rest) = (tokenize fuel rest).map (x.2 :: ·))
 
-theorem Option.map_map_cons {α : Type} (o : Option (List α)) (a : List α) (b : List α) :
-    (o.map (b ++ ·)).map (a ++ ·) = o.map ((a ++ b) ++ ·) := by
-  cases o <;> simp
-
 /-- tokenizing the source of good pieces, with pending (escaped) text `p` in front and any
 continuation behind, yields the merged tokens and leaves the final pending text -/
 theorem tokenize_pieces (ps : List Piece) (hg : ∀ x ∈ ps, GoodPiece x) :
